@@ -251,6 +251,8 @@ def job_inner(j):
             obs.append(rec)
             continue
         excluded = []
+        if hc.get('_hunt') and (ob.kind not in ('assert', 'panic') or any(o.get('verdict') == 'violation' for o in obs)):
+            continue   # bug hunting only: assertions, and one reproduced violation is enough
         if ob.kind == 'unwind':
             # unwinding assertion failed: the bound was too small to finish this path.
             # Never a violation, never success: inconclusive.
@@ -354,6 +356,33 @@ def job_inner(j):
             continue
         seen[key] = rec
         obs.append(rec)
+    # An overflow witness of the rounded-real reading whose replay passes leaves the reading
+    # without a verdict for the inputs on which some operation overflows.  Hunt for a
+    # violation on the same harness bit-exactly (float32 semantics incl. Inf/NaN): a model
+    # that reproduces natively is a violation; anything else leaves the obligation inconclusive.
+    hunt_notes = []
+    if hc.get('mode') == 'R' and not hc.get('_hunt') and any(o['kind'] == 'range' and o['verdict'] in ('spurious', 'unknown') for o in obs):
+        t_h = time.time()
+        j2 = dict(j, cfg=dict(hc, mode='B', _hunt=True, validate=0, inproc_ms=4000, ext_s=min(ext_s, 90)))
+        saved = (fpops.CTX.mode, fpops.CTX.pending, fpops.CTX.assumptions, fpops.CTX.range_checks)
+        try:
+            r2 = job_inner(j2)
+            nv = 0
+            for o in r2['obligations']:
+                if o['verdict'] == 'violation':
+                    o = dict(o, label=o['label'] + ' [bit-exact hunt in the overflow region of the rounded-real reading]')
+                    obs.append(o)
+                    nv += 1
+            nsolve += r2['solver_calls']
+            tsolve += r2['solver_time']
+            hunt_notes.append('overflow witness in the rounded-real reading: bit-exact hunt on the same harness: %d obligations, %d violations reproduced natively, %.1fs'
+                              % (len(r2['obligations']), nv, time.time() - t_h))
+        except JobTimeout:
+            raise
+        except Exception as e:
+            hunt_notes.append('bit-exact hunt failed: %s: %s' % (type(e).__name__, e))
+        finally:
+            fpops.CTX.mode, fpops.CTX.pending, fpops.CTX.assumptions, fpops.CTX.range_checks = saved
     # validation samples: a model of a few finished paths, to be replayed natively
     samples = []
     nval = hc.get('validate', 2)
@@ -373,7 +402,7 @@ def job_inner(j):
     return dict(harness=hname, presets=j['presets'] if len(j['presets']) < 8 else {'preset': j.get('tag', 'case')}, tag=j.get('tag', ''), paths=res.paths, ended=res.ended, steps=res.steps,
                 solver_calls=res.solver_calls + nsolve, solver_time=res.solver_time + tsolve, funcs=res.funcs,
                 labels=sorted(res.labels), reached=res.reached, folded=res.folded, obligations=obs,
-                stubs=sorted(res.stubs), assumptions=sorted(fpops.CTX.assumptions | res.assumptions), notes=sorted(set(res.notes)),
+                stubs=sorted(res.stubs), assumptions=sorted(fpops.CTX.assumptions | res.assumptions), notes=sorted(set(res.notes)) + hunt_notes,
                 forks=res.forks, merges=res.merges, samples=samples, params=getattr(res, 'params_used', {}),
                 mode=hc.get('mode', 'B'), wall=time.time() - t_start, pkgdir=pkgdir)
 
